@@ -16,6 +16,7 @@ void vh_rand_bytes(vh_rng *r, void *buf, size_t n);
 /* "interesting" bytes: random / all 00 / all FF / walking one / low weight */
 void vh_fill_interesting(vh_rng *r, uint8_t *buf, size_t n);
 void vh_fill_msb_boundary(vh_rng *r, uint8_t *buf, size_t n);
+void vh_related(vh_rng *r, uint8_t *dst, const uint8_t *src, size_t n);
 /* a 32-bit length that is far out of range but lands in [lo,hi] when multiplied by 2,4,8,16 or 32 modulo 2^32
    (lengths converted to bits / words / doubled before the range check) */
 uint32_t vh_wrap_len(vh_rng *r, uint32_t lo, uint32_t hi);
@@ -129,6 +130,7 @@ int vh_check_defined(const char *what, const void *p, size_t n);
  * vh_ro_copy copies an object into a private page at a fresh address and makes the page PROT_READ: a function that
  * takes the object by pointer-to-const must work on the copy (no pointers into the original, no writes). */
 const void *vh_ro_copy(int slot, const void *obj, size_t n);
+const void *vh_ro_copy_al(int slot, const void *obj, size_t n, size_t align);
 void vh_ro_release(int slot);
 
 /* stack painter: fills ~n bytes of stack below the caller with v */
